@@ -38,15 +38,24 @@ pub struct Use {
     pub qual: bool,
 }
 
-#[derive(Clone, Debug)]
+#[derive(Clone, Debug, PartialEq)]
 pub struct Impl {
     pub file: usize,
+    /// `impl TYPE { … }` instead of `impl TRAIT for TYPE { … }`
+    pub inherent: bool,
+    /// owner of the trait (unused for inherent impls)
     pub tr: String,
-    /// owner of the type, or "int32"
-    pub ty: String,
-    /// "S" or "R": which of the owner's two structs
+    /// outermost constructor of the target type: nom prim vec ref tup arr fun dyn gen
+    pub shape: String,
+    /// owner of the nominal head (nom, gen) or of the trait of a `dyn`; "-" otherwise
+    pub head: String,
+    /// owner of the argument struct, "int32", or "-" where the shape has no argument
+    pub arg: String,
+    /// "S" or "R": which of the head's two structs (nom only)
     pub which: String,
 }
+
+pub const SHAPES: &[&str] = &["nom", "prim", "vec", "ref", "tup", "arr", "fun", "dyn", "gen"];
 
 #[derive(Clone, Debug)]
 pub struct Pkg {
@@ -64,7 +73,7 @@ pub struct World {
 
 fn std_items(p: &str) -> String {
     format!(
-        "struct S{p} {{\n    v: int32,\n}}\n\nstruct R{p} {{\n    v: int32,\n}}\n\nenum E{p} {{\n    K0,\n    K1(int32),\n}}\n\ntrait T{p} {{\n    fn m(Self) -> int32;\n}}\n\nimpl T{p} for S{p} {{\n    fn m(self: S{p}) -> int32 {{\n        self.v\n    }}\n}}\n\nfn f{p}(x: int32) -> int32 {{\n    x\n}}\n"
+        "struct S{p} {{\n    v: int32,\n}}\n\nstruct R{p} {{\n    v: int32,\n}}\n\nstruct G{p}[T] {{\n    x: T,\n}}\n\nenum E{p} {{\n    K0,\n    K1(int32),\n}}\n\ntrait T{p} {{\n    fn m(Self) -> int32;\n}}\n\nimpl T{p} for S{p} {{\n    fn m(self: S{p}) -> int32 {{\n        self.v\n    }}\n}}\n\nfn f{p}(x: int32) -> int32 {{\n    x\n}}\n"
     )
 }
 
@@ -83,16 +92,34 @@ fn use_text(q: &str, i: usize, u: &Use) -> String {
     }
 }
 
-fn impl_text(q: &str, im: &Impl) -> String {
-    let tr = if im.tr == q { format!("T{}", im.tr) } else { format!("{}::T{}", im.tr, im.tr) };
-    let ty = if im.ty == "int32" {
-        "int32".to_string()
-    } else if im.ty == q {
-        format!("{}{}", im.which, im.ty)
+/// spelling of `owner::item` from inside package `q`
+fn path(q: &str, owner: &str, item: &str) -> String {
+    if owner == q { format!("{}{}", item, owner) } else { format!("{}::{}{}", owner, item, owner) }
+}
+
+pub fn type_text(q: &str, im: &Impl) -> String {
+    let arg = if im.arg == "int32" || im.arg == "-" { "int32".to_string() } else { path(q, &im.arg, "S") };
+    match im.shape.as_str() {
+        "nom" => path(q, &im.head, &im.which),
+        "prim" => "int32".to_string(),
+        "vec" => format!("Vec[{arg}]"),
+        "ref" => format!("Ref[{arg}]"),
+        "tup" => format!("({arg}, int32)"),
+        "arr" => format!("[{arg}; 2]"),
+        "fun" => format!("({arg}) -> int32"),
+        "dyn" => format!("dyn {}", path(q, &im.head, "T")),
+        _ => format!("{}[{arg}]", path(q, &im.head, "G")),
+    }
+}
+
+fn impl_text(q: &str, i: usize, im: &Impl) -> String {
+    let ty = type_text(q, im);
+    if im.inherent {
+        format!("impl {ty} {{\n    fn k{i}(self: {ty}) -> int32 {{\n        7\n    }}\n}}\n")
     } else {
-        format!("{}::{}{}", im.ty, im.which, im.ty)
-    };
-    format!("impl {tr} for {ty} {{\n    fn m(self: {ty}) -> int32 {{\n        7\n    }}\n}}\n")
+        let tr = path(q, &im.tr, "T");
+        format!("impl {tr} for {ty} {{\n    fn m(self: {ty}) -> int32 {{\n        7\n    }}\n}}\n")
+    }
 }
 
 pub fn sources(w: &World) -> Vec<(String, String)> {
@@ -125,8 +152,8 @@ pub fn sources(w: &World) -> Vec<(String, String)> {
                 s1.push('\n');
             }
         }
-        for im in &p.impls {
-            let t = impl_text(&decl, im);
+        for (i, im) in p.impls.iter().enumerate() {
+            let t = impl_text(&decl, i, im);
             if im.file == 0 {
                 s0.push('\n');
                 s0.push_str(&t);
@@ -170,7 +197,18 @@ pub fn world_sexp(w: &World) -> S {
                 let impls: Vec<S> = p
                     .impls
                     .iter()
-                    .map(|i| l(vec![a("impl"), a(i.file.to_string()), a(i.tr.clone()), a(i.ty.clone()), a(i.which.clone())]))
+                    .map(|i| {
+                        l(vec![
+                            a("impl"),
+                            a(i.file.to_string()),
+                            a(if i.inherent { "inherent" } else { "trait" }),
+                            a(i.tr.clone()),
+                            a(i.shape.clone()),
+                            a(i.head.clone()),
+                            a(i.arg.clone()),
+                            a(i.which.clone()),
+                        ])
+                    })
                     .collect();
                 l(vec![
                     a(p.name.clone()),
@@ -277,18 +315,27 @@ pub fn gen_world(idx: usize, rng: &mut Rng) -> World {
                     _ => all[rng.below(all.len())].clone(),
                 }
             };
-            let tr = pick(rng, &pkgs);
-            let ty = if rng.chance(1, 6) { "int32".to_string() } else { pick(rng, &pkgs) };
-            if (tr == "Main" || ty == "Main") && q != "Main" {
+            let inherent = rng.chance(1, 4);
+            let tr = if inherent { "-".to_string() } else { pick(rng, &pkgs) };
+            // the target type: a named type (as before), a primitive, or a builtin / generic constructor applied to an
+            // own, foreign or primitive argument
+            let mut shape = if rng.chance(2, 5) { "nom" } else { SHAPES[1 + rng.below(SHAPES.len() - 1)] }.to_string();
+            if inherent && shape == "arr" {
+                shape = "vec".to_string(); // `impl [T; n] { … }` does not parse
+            }
+            let has_head = matches!(shape.as_str(), "nom" | "gen" | "dyn");
+            let has_arg = matches!(shape.as_str(), "vec" | "ref" | "tup" | "arr" | "fun" | "gen");
+            let head = if has_head { pick(rng, &pkgs) } else { "-".to_string() };
+            let arg = if !has_arg { "-".to_string() } else if rng.chance(1, 3) { "int32".to_string() } else { pick(rng, &pkgs) };
+            if (tr == "Main" || head == "Main" || arg == "Main") && q != "Main" {
                 continue;
             }
-            // `int32` is one type: there is no second struct to pick
-            let which = if ty != "int32" && rng.chance(1, 2) { "R" } else { "S" }.to_string();
-            let im = Impl { file: 0, tr, ty, which };
+            let which = if shape == "nom" && rng.chance(1, 2) { "R" } else { "S" }.to_string();
+            let im = Impl { file: 0, inherent, tr, shape, head, arg, which };
             // now and then the same impl a second time, in this package or in another one
             if rng.chance(1, 4) {
                 let other = rng.below(pkgs.len());
-                if !((im.tr == "Main" || im.ty == "Main") && pkgs[other].name != "Main") {
+                if !((im.tr == "Main" || im.head == "Main" || im.arg == "Main") && pkgs[other].name != "Main") {
                     pkgs[other].impls.push(im.clone());
                 }
             }
@@ -304,6 +351,8 @@ pub fn classify(msg: &str) -> &'static str {
         "not-imported"
     } else if msg.contains("violates orphan rule") {
         "orphan"
+    } else if msg.contains("Inherent impl for non-local type") {
+        "inherent-nonlocal"
     } else if msg.contains("is already defined") {
         "dup-local"
     } else if msg.contains("is defined in multiple packages") {
